@@ -183,15 +183,23 @@ def model_vs_node(model, ynode):
     return None
 
 
-def run_sequence(ctx, seq, origin):
-    """Apply seq to a fresh node and the model. seq: list of op encodings."""
+def run_sequence(ctx, seq, origin, shared=False):
+    """Apply seq to a fresh node and the model. seq: list of op encodings.
+    shared: two keys hold the SAME scalar node object, as they do in a
+    composed document with an anchor and an alias ('a: &x 1' / 'b_c: *x');
+    the map stays a map of independent values."""
     spec = initial_spec()
+    if shared:
+        spec[1][1][1] = list(spec[1][0][1])
     ynode = N.mk(spec)
+    if shared:
+        ynode.value[1] = (ynode.value[1][0], ynode.value[0][1])
+        ctx.count('sequences_on_shared_scalar_nodes')
     node = yatiml.Node(ynode)
     model = OrderedDict()
     for k, v in spec[1]:
         model[k[2]] = ('view', N.view(N.mk(v)))
-    case = {'kind': 'seq', 'ops': seq}
+    case = {'kind': 'seq', 'ops': seq, 'shared': shared}
     mutated = False
     for step, op in enumerate(seq):
         ctx.count('ops_applied')
@@ -568,6 +576,11 @@ def check_defaults(ctx, env, d_idx, o_idx, vals, o2_idx=None):
     judge_defaults(ctx, env, K, eff, vals, case, ' class=base-after-subclass')
     judge_defaults(ctx, env, Sub, eff2, vals, case,
                    ' class=subclass-after-base')
+    # a subclass that is looked at for the first time after its base class
+    Late = type('Late', (K,), {})
+    Late._yatiml_defaults = dict(over2)
+    judge_defaults(ctx, env, Late, eff2, vals, case,
+                   ' class=new-subclass-after-base')
     if dict(getattr(Sub, '_yatiml_defaults')) != over2 or (
             overrides and dict(K._yatiml_defaults) != overrides):
         ctx.violation('C14 remove_defaults modified-_yatiml_defaults',
@@ -680,11 +693,13 @@ def shard(ctx):
                 continue
             ctx.count('op_sequences')
             run_sequence(ctx, [OPS[i] for i in tup], 'exhaustive')
+            if n <= 2 or idx % 3 == 0:
+                run_sequence(ctx, [OPS[i] for i in tup], 'exhaustive', True)
     # A random
     for _ in range(ctx.budget(8000, 80000)):
         seq = [random_op(ctx.rng) for _ in range(ctx.rng.randint(1, 30))]
         ctx.count('random_sequences')
-        run_sequence(ctx, seq, 'random')
+        run_sequence(ctx, seq, 'random', ctx.rng.random() < 0.3)
     # B
     for spec in gen_node_specs(ctx.rng, ctx.budget(600, 6000)):
         check_classify(ctx, spec)
@@ -799,7 +814,7 @@ def replay(ctx, case):
     env = get_env()
     k = case['kind']
     if k == 'seq':
-        run_sequence(ctx, case['ops'], 'replay')
+        run_sequence(ctx, case['ops'], 'replay', case.get('shared', False))
     elif k == 'classify':
         check_classify(ctx, case['spec'])
     elif k == 'setget':
